@@ -40,16 +40,16 @@ ASSUMPTIONS = [
     "when every positive-weight realization fails but the success count still meets the threshold (zero-weight survivors) only 'returns normally with a documented code' is asserted",
     "rank ties inside a filter make the model's deficiency verdict ambiguous: such runs only assert 'returns normally'",
     "real SciPy algorithms are deterministic: the faulted run follows the baseline until the fault",
-    "max_functions budgets the function values handed to the algorithm (real back-ends: recorded at the optimizer callback); the unperturbed evaluation that accompanies a gradient-only request at a point without cached function values also yields a FunctionResults but is not budgeted",
+    "max_functions budgets the function values handed to the algorithm (recorded at the optimizer callback); with the SciPy plug-in every delivered function result is such an evaluation (asserted); a scripted algorithm that asks for a gradient alone at a new point makes the ensemble layer run the unperturbed rows without a budgeted request",
 ]
 COMPONENTS = {
     "real": ["EnsembleOptimizer (stopping criteria, exit codes)", "optimizer / evaluator steps", "EnsembleEvaluator", "filters", "estimators", "ConstraintInfo", "SciPy plug-in + real scipy.optimize (40% of groups)"],
     "stub": ["SimEvaluator with fault plan", "sim/scripted optimizer (60% of groups)", "objective/constraint scalers"],
 }
-PROBES = ["estimator_deficiency_in_gradient_only_evaluation", "every_completed_evaluation_delivered", "all_failed_tolerated_run_continues", "too_few_expected", "too_few_by_filter", "too_few_by_estimator", "too_few_by_threshold", "max_functions_expected",
+PROBES = ["delivered_function_results_vs_budget", "estimator_deficiency_in_gradient_only_evaluation", "every_completed_evaluation_delivered", "all_failed_tolerated_run_continues", "too_few_expected", "too_few_by_filter", "too_few_by_estimator", "too_few_by_threshold", "max_functions_expected",
           "user_abort_expected", "evaluator_exception_expected", "finished_expected", "real_scipy_backend", "parallel_de",
           "evaluator_step", "nested", "dontcare_zero_weight_survivors", "failing_results_delivered", "rms_zero_all_failed"]
-REAL = ["slsqp", "l-bfgs-b", "cobyla", "nelder-mead", "differential_evolution"]
+REAL = ["slsqp", "l-bfgs-b", "cobyla", "nelder-mead", "differential_evolution", "newton-cg"]
 DOCUMENTED = {int(c) for c in OptimizerExitCode}
 
 
@@ -77,6 +77,8 @@ def _group_scenario(gseed: int) -> dict:
                 opt["parallel"] = True
         else:
             opt["options"] = {"maxiter": rng.randint(1, 4)}
+            if backend == "newton-cg":
+                opt["options"]["eps"] = 0.05  # Hessian-vector differences at points well away from the iterate
         if rng.random() < 0.3:
             opt["speculative"] = True
         if rng.random() < 0.3:
@@ -316,6 +318,15 @@ def check_run(ctx, scn, fault, viol, probes, baseline=None) -> tuple[int, str]:
             slack = max([len(e["pts"]) for e in opts.get("script", []) if e.get("batch")] + [64]) - 1
         if nfun > mf + slack:
             viol.append({"clause": "max-functions-exceeded", "sig": {}, "detail": f"{nfun} function evaluations with max_functions={mf}"})
+        if backend != "scripted":
+            # the SciPy plug-in asks for the function values whenever an evaluation has to compute them, so every
+            # delivered function result is a budgeted evaluation (a scripted algorithm may ask for a gradient alone)
+            nres = sum(1 for ln in oracles.linked_results(ctx)
+                       if ctx.step_meta[ln.step]["level"] == 0 and ln.is_function and ln.opt.functions is not None)
+            probe("delivered_function_results_vs_budget")
+            if nres > mf + slack:
+                viol.append({"clause": "max-functions-exceeded", "sig": {"counted": "delivered function results"},
+                             "detail": f"backend {backend}: {nres} function evaluations were made and delivered with max_functions={mf}"})
     expected = None
     if scn.get("nested"):
         probe("nested")
